@@ -351,11 +351,14 @@ func c14Writer(c *Ctx, WF *ssa.Function, ruleW string) {
 		switch x := r.(type) {
 		case *ssa.DebugRef:
 		case *ssa.Call:
-			if x != rn {
+			if x != rn && !isFormattingCall(x) {
 				okUse = false
 				uses = append(uses, calleeName(x))
 			}
 		default:
+			if onlyFormatted(r, 0) {
+				continue // the path is only rendered into a log or error text
+			}
 			okUse = false
 			uses = append(uses, fmt.Sprintf("%T", r))
 		}
